@@ -15,6 +15,7 @@ extern "C" void harness() {
   c.setupRows(Rectangle(0, 100, 0, 40), 10);
   c.addNet({0, 1}, {1, 2}, {3, 4}, 1.0f);
   c.addNet({0, 2, 1}, {0, 3, 1}, {5, 2, 0}, 2.0f);
+  c.addNet({1}, {2}, {3}, 1.0f);           // a dangling net: one pin, on a movable cell (nets of any degree are in the domain)
   ColoquinteParameters p(1);
 #ifdef INITCH
   p.global.nbInitialSteps = __verif_choice(INITCH);   // with or without initial lower-bound steps (must stay below the maximum)
@@ -49,7 +50,7 @@ extern "C" void harness() {
   VASSERT(c.x(2) == fxx && c.y(2) == fxy && c.orientation(2) == CellOrientation::S, "fixed cell keeps position and orientation");
   VASSERT(c.orientation(0) == CellOrientation::N && c.orientation(1) == CellOrientation::FS, "global placement leaves every orientation unchanged");
   VASSERT(c.cellWidth()[0] == 6 && c.cellWidth()[1] == 4 && c.cellWidth()[2] == 8 && c.cellHeight()[2] == 20, "cell sizes untouched");
-  VASSERT(c.nbNets() == 2 && c.netWeight(1) == 2.0f && c.pinCell(1, 1) == 2 && c.nbRows() == 4, "nets and rows untouched");
+  VASSERT(c.nbNets() == 3 && c.netWeight(1) == 2.0f && c.pinCell(1, 1) == 2 && c.nbRows() == 4, "nets and rows untouched");
   VASSERT(ctx.lb >= 1 && ctx.ub >= 1, "lower-bound and upper-bound callbacks were issued");
   __verif_cover("end");
 }
